@@ -37,7 +37,14 @@ def main():
             return 2
         props = [prop] if '--all-checks' not in sys.argv else ['C%02d' % i for i in range(1, 21)]
         try:
-            subprocess.run(['git', '-C', '/repo', 'apply', pf], check=True)
+            if subprocess.run(['git', '-C', '/repo', 'apply', pf], stderr=subprocess.DEVNULL).returncode != 0:
+                # the tree has moved on (a later fix: commit touched the same lines): apply with fuzz, or report the change as stale
+                subprocess.run(['git', '-C', '/repo', 'checkout', '--', '.'], check=True)
+                r = subprocess.run(['patch', '-p1', '-s', '--fuzz=3', '--no-backup-if-mismatch', '-r', '-', '-i', pf], cwd='/repo', stdout=subprocess.PIPE, stderr=subprocess.STDOUT, text=True)
+                if r.returncode != 0:
+                    print('%-7s %-28s %s patch no longer applies to /repo (needs a rebase): %s' % ('STALE', os.path.basename(d), prop, r.stdout.strip().splitlines()[-1:] ))
+                    res[os.path.basename(d)] = 'STALE'
+                    continue
             for p in props:
                 r = subprocess.run([os.path.join(HERE, 'check'), p, '--tier', tier], stdout=subprocess.PIPE, stderr=subprocess.STDOUT, text=True,
                                    env=dict(os.environ, QXV_EVIDENCE_DIR='/verif/.work/seeded-evidence'))
